@@ -170,18 +170,46 @@ impl GraphEngine {
     /// Creates a B-Tree index for the given label and property.
     ///
     /// If the index already exists, this is a no-op.
-    /// Note: This MVP does not backfill existing data. The index will only track
-    /// valid data inserted *after* index creation.
+    /// Existing nodes are backfilled: every node whose primary label is `label` and that has
+    /// `field` gets an entry, exactly as `commit` would have inserted it.
     pub fn create_index(&self, label: &str, field: &str) -> Result<()> {
-        let mut catalog = self.index_catalog.lock().unwrap();
         let name = format!("{}.{}", label, field);
-        if catalog.get(&name).is_some() {
+        if self.index_catalog.lock().unwrap().get(&name).is_some() {
             return Ok(());
         }
 
+        // Index creation is a write: no commit may run between the backfill read and the
+        // moment the catalog entry becomes visible to `commit`.
+        let _guard = self.write_lock.lock().unwrap();
+
+        // Read phase (takes the pager read lock, so it must precede the write phase).
+        let mut existing = Vec::new();
+        if let Some(label_id) = self.get_label_id(label) {
+            use crate::read_path_convert::convert_property_to_storage as to_storage;
+            let snapshot = self.snapshot();
+            let mut iid: InternalNodeId = 0;
+            while let Some(lid) = snapshot.node_label(iid) {
+                if lid == label_id
+                    && let Some(value) = snapshot.node_property(iid, field)
+                {
+                    existing.push((iid, to_storage(value)));
+                }
+                iid += 1;
+            }
+        }
+
+        let mut catalog = self.index_catalog.lock().unwrap();
+        if catalog.get(&name).is_some() {
+            return Ok(());
+        }
         let mut pager = self.pager.write().unwrap();
-        catalog.get_or_create(&mut pager, &name)?;
-        catalog.flush(&mut pager)?;
+        let def = catalog.get_or_create(&mut pager, &name)?;
+        let mut tree = BTree::load(def.root);
+        for (iid, value) in existing {
+            let key = encode_index_key(def.id, &value, iid as u64);
+            tree.insert(&mut pager, &key, iid as u64)?;
+        }
+        catalog.update_root(&mut pager, &name, tree.root())?;
         Ok(())
     }
 
